@@ -602,7 +602,7 @@ func (x *ckExec) step(op ckOp) {
 		if p, _ := catch(func() { data, werr = x.c.Data() }); p {
 			werr = errors.New("panic")
 		}
-		d := level.EmptyChunk(x.secs)
+		d := x.ckDest()
 		if werr == nil {
 			if p, _ := catch(func() { rerr = d.PutData(data) }); p {
 				rerr = errors.New("panic")
@@ -646,7 +646,7 @@ func (x *ckExec) net(op ckOp) {
 	tail := make([]byte, op.Tail)
 	x.rng.Read(tail)
 	in := append(append([]byte{}, wb...), tail...)
-	d := level.EmptyChunk(x.secs)
+	d := x.ckDest()
 	left := -1
 	if werr == nil {
 		br := bytes.NewReader(in)
@@ -756,6 +756,33 @@ func (x *ckExec) vanilla(op ckOp) {
 	}
 	x.ev(map[string]any{"k": "vanilla", "ypos": op.YPos, "ferr": ferr != nil, "wideb": wb, "widem": wm, "what": what, "d": proj, "why": ckWhy(ferr)})
 }
+
+// ckDest is the chunk a network form is read into: half of the time a chunk that was used before (blocks, biomes,
+// height-map values and block entities of its own) - nothing of that may survive the read.
+func (x *ckExec) ckDest() *level.Chunk {
+	d := level.EmptyChunk(x.secs)
+	if x.rng.Intn(2) == 0 {
+		return d
+	}
+	for i := 0; i < 40+x.rng.Intn(400); i++ {
+		d.Sections[x.rng.Intn(x.secs)].SetBlock(x.rng.Intn(4096), level.BlocksState(1+x.rng.Intn(20000)))
+	}
+	for i := 0; i < 12; i++ {
+		d.Sections[x.rng.Intn(x.secs)].Biomes.Set(x.rng.Intn(64), biome.Type(x.rng.Intn(40)))
+	}
+	for i := 0; i < 256; i += 1 + x.rng.Intn(9) {
+		d.HeightMaps.MotionBlocking.Set(i, 1+x.rng.Intn(15))
+		d.HeightMaps.WorldSurface.Set(i, 1+x.rng.Intn(15))
+	}
+	for i := 0; i < x.rng.Intn(5); i++ {
+		d.BlockEntity = append(d.BlockEntity, level.BlockEntity{XZ: int8(i), Y: int16(7 * i), Type: 3, Data: ckEntData([]int{i, i, i, 3, 0, 0})})
+	}
+	if x.rng.Intn(2) == 0 {
+		d.BlockEntity = append(make([]level.BlockEntity, 0, 16), d.BlockEntity...)
+	}
+	return d
+}
+
 
 // counter runs a long random SetBlock history on one section (of the current chunk, or of a chunk obtained from it
 // through the network or the save form) and records, per batch, what GetBlock returned before every call, what was
